@@ -237,6 +237,12 @@ def nondet_log_from_trace(trace):
     return vals
 
 # --------------------------------------------------------------------------
+def load_hints():
+    p = os.path.join(VERIF, 'harness', 'unwind_hints.json')
+    try: return json.load(open(p))
+    except Exception: return {}
+HINTS = load_hints()
+
 def load_index():
     import INDEX
     return INDEX.HARNESSES
@@ -272,6 +278,10 @@ def run_harness(h, tier, rootdir, keep):
     # witness twin; doubles as the loop-bound finder: a failed unwinding assertion raises that loop's bound and the
     # twin is run again (per-loop iterative deepening), so bounds are derived from the code, not guessed
     h = dict(h); h['unwindset'] = dict(h.get('unwindset', {}))
+    # committed starting points for the per-loop bounds (harness/unwind_hints.json, produced by `vf check --learn`); they only
+    # save deepening rounds: a bound that is too small for the current tree is still detected and raised
+    for lid, bnd in HINTS.get(h.get('base_id', h['id']), {}).items():
+        h['unwindset'].setdefault(lid, bnd)
     cap = h.get('unwind_cap', 160)
     rounds = 0
     while True:
@@ -351,7 +361,7 @@ def native_replay(h, wd, vals, outdir, tag):
     rep = r.returncode != 0 and 'VF_ASSUME_FAILED' not in out and 'VF_MODEL_' not in out
     return {'ran': True, 'rc': r.returncode, 'reproduced': rep, 'out': out}
 
-def cmd_check(prop, tier, only, keep, seed):
+def cmd_check(prop, tier, only, keep, seed, learn=False):
     t0 = time.time()
     idx = load_index()
     hs = []
@@ -416,6 +426,14 @@ def cmd_check(prop, tier, only, keep, seed):
                     print('  harness=%s assertion="%s" inputs=%s' % (r['id'], v['description'], v['nondet'][:24]))
         incon = [r for r in results if r['status'] == 'inconclusive' or (r['status'] == 'violation' and r['inconclusive'])]
         wall = time.time() - t0
+        if learn:
+            hints = load_hints()
+            for r in results:
+                if r['status'] == 'holds' and r.get('unwindset'):
+                    base = r['id'].split('@')[0]
+                    cur = hints.setdefault(base, {})
+                    for lid, bnd in r['unwindset'].items(): cur[lid] = max(cur.get(lid, 0), bnd)
+            json.dump(hints, open(os.path.join(VERIF, 'harness', 'unwind_hints.json'), 'w'), indent=0, sort_keys=True)
         write_evidence(prop, tier, seed, results, wall, nviol)
         for r in incon:
             print('INCONCLUSIVE %s: %s' % (r['id'], '; '.join(r['inconclusive'])[:600]))
@@ -498,13 +516,13 @@ def main():
     ap = argparse.ArgumentParser()
     sub = ap.add_subparsers(dest='cmd')
     c = sub.add_parser('check'); c.add_argument('prop'); c.add_argument('--tier', default=os.environ.get('VERIF_TIER', 'quick'))
-    c.add_argument('--only', action='append'); c.add_argument('--keep', action='store_true')
+    c.add_argument('--only', action='append'); c.add_argument('--keep', action='store_true'); c.add_argument('--learn', action='store_true')
     r = sub.add_parser('replay'); r.add_argument('path')
     sub.add_parser('setup'); sub.add_parser('list')
     a = ap.parse_args()
     seed = int(os.environ.get('VERIF_SEED', '0') or 0)
     if a.cmd == 'check':
-        sys.exit(cmd_check(a.prop, a.tier, a.only, a.keep, seed))
+        sys.exit(cmd_check(a.prop, a.tier, a.only, a.keep, seed, a.learn))
     if a.cmd == 'replay':
         sys.exit(cmd_replay(a.path))
     if a.cmd == 'setup':
